@@ -36,6 +36,23 @@ Theorem C11_never_crashes :
 Proof. exact repaired_always_answers. Qed.
 Print Assumptions C11_never_crashes.
 
+(* the cache write may fail at any byte, persistently (full disk or quota, EFBIG, EIO): the reply of a listing
+   request is the same whatever the write does ... *)
+Theorem C11_save_outcome_irrelevant :
+  forall (D L P : Type) (gen : D -> L) enc decode life rep (s : state D) (p : P) k,
+    snd (step gen enc decode life rep s (ListF p k)) = snd (step gen enc decode life rep s (List p)).
+Proof. exact save_outcome_irrelevant. Qed.
+Print Assumptions C11_save_outcome_irrelevant.
+
+(* ... and every cut point k satisfies what op_ok asks of `ListF p k`, so C10_fresh / C10_transparent / C10_zero /
+   C11_never_crashes hold for every history in which any of the writes fail after any number of bytes *)
+Theorem C11_every_cut_point_ok :
+  forall (L : Type) (enc : L -> bytes) (decode : bytes -> option L),
+    (forall l g, strict_prefix g (enc l) -> decode g = None) ->
+  forall k l, decode (firstn k (enc l)) = None \/ firstn k (enc l) = enc l.
+Proof. exact cut_ok. Qed.
+Print Assumptions C11_every_cut_point_ok.
+
 (* ... and in every history with harmless damage the answers obey C10 (C10_fresh,
    C10_transparent and C10_zero are stated for histories containing Damage) *)
 
@@ -49,7 +66,7 @@ Print Assumptions C11_pinned_crashes.
 
 Theorem C11_refuted :
   exists (ops : list (op (list N) N)),
-    Forall (op_ok toy_decode) ops /\
+    Forall (op_ok toy_enc toy_decode) ops /\
     map (fun e => snd e) (snd (run (fun d => d) toy_enc toy_decode 180 false (init [1%N; 2%N] 5000) ops)) =
       [Crashed 2%N; Crashed 1%N; Served 0%N [1%N; 2%N] false].
 Proof.
@@ -66,8 +83,13 @@ Example C11_example :
   (forall n, (2 <= n)%nat -> toy_decode (repeat 0%N n) = None) /\
   map (fun e => snd e) (snd (run (fun d => d) toy_enc toy_decode 180 true (init [1%N; 2%N] 5000)
      [List 0%N; Tick 10; Damage (firstn 2 (toy_enc [1%N; 2%N])); List 1%N; Tick 60000; List 2%N])) =
-      [Served 2%N [1%N; 2%N] true; Served 1%N [1%N; 2%N] false; Served 0%N [1%N; 2%N] false].
+      [Served 2%N [1%N; 2%N] true; Served 1%N [1%N; 2%N] false; Served 0%N [1%N; 2%N] false] /\
+  (* a disk that stays full: every write stops after 1 byte, every request is still answered with the listing *)
+  map (fun e => snd e) (snd (run (fun d => d) toy_enc toy_decode 180 true (init [1%N; 2%N] 5000)
+     [ListF 0%N 1; Tick 10; ListF 1%N 1; Tick 10; ListF 2%N 0; Tick 10; List 3%N; List 4%N])) =
+      [Served 4%N [1%N; 2%N] true; Served 3%N [1%N; 2%N] false; Served 2%N [1%N; 2%N] false;
+       Served 1%N [1%N; 2%N] false; Served 0%N [1%N; 2%N] false].
 Proof.
   split; [exact toy_roundtrip|]. split; [exact toy_prefix_fails|]. split; [exact toy_zero_fails|].
-  vm_compute. reflexivity.
+  vm_compute. split; reflexivity.
 Qed.
